@@ -65,7 +65,8 @@ Definition run16_style (c : case16) (a : style_arg) : sx :=
                            sx_res sx_hlines (nfi (SNode x) a false) ])
              (sel f (c_starts c)));
       sx_res sx_text (tree_format CONNECTORS DEFAULT_CONNECTOR_STYLE rend trepr f a TiDefault (c_join c));
-      L (map (fun x => sx_res sx_htext (format CONNECTORS DEFAULT_CONNECTOR_STYLE rend f (SNode x) a true (c_join c)))
+      L (map (fun x => L [ sx_res sx_htext (format CONNECTORS DEFAULT_CONNECTOR_STYLE rend f (SNode x) a true (c_join c));
+                           sx_res sx_htext (format CONNECTORS DEFAULT_CONNECTOR_STYLE rend f (SNode x) a false (c_join c)) ])
              (sel f (c_jstarts c)));
       (* tree.system_root.format_iter(add_self=True / False) *)
       L [ sx_res sx_hlines (nfi SRoot a true); sx_res sx_hlines (nfi SRoot a false) ] ].
